@@ -22,7 +22,7 @@ TECHNIQUE = "exhaustive fault-sequence enumeration: every outcome sequence of th
 RULE = (
     "per configuration (limit 1..4 x catching {default,class,tuple,set,empty tuple,empty set} x delay {None,int,float,"
     "function, function declared with *args only} x sync/async x inside/outside a scope) every reachable sequence of call outcomes "
-    "over {value, caught, subclass of caught (one and two levels), uncaught Exception, CancelledError, other "
+    "over {value, caught, subclass of caught (one and two levels; unrenderable; unhashable), uncaught Exception, CancelledError, other "
     "BaseException}; plus ONE wrapper used 2-3 times in a row (every outcome sequence per use over {value, caught, subclass, uncaught}, delay function depending on the exception); non-trivial = at least one retry happened or a non-retryable error ended it"
 )
 ASSUMPTIONS = [
@@ -43,6 +43,15 @@ class SubCaught(Caught):
 
 class DeepCaught(SubCaught):
     """two inheritance levels below the caught class"""
+
+
+class UnhashableCaught(Caught):
+    """a caught exception that defines __eq__ without __hash__ (e.g. a dataclass exception)"""
+
+    def __eq__(self, other) -> bool:
+        return isinstance(other, UnhashableCaught) and other.args == self.args
+
+    __hash__ = None  # type: ignore[assignment]
 
 
 class Unrelated(Exception):
@@ -67,7 +76,7 @@ class BadStrCaught(Caught):
         return "BadStrCaught()"
 
 
-OUTCOMES = ["value", "caught", "subcaught", "other", "cancelled", "base", "badstr", "deepcaught"]
+OUTCOMES = ["value", "caught", "subcaught", "other", "cancelled", "base", "badstr", "deepcaught", "unhashable"]
 
 
 def programs(tier: str):
@@ -290,6 +299,7 @@ def _make_exc(kind: str, k: int) -> BaseException:
         "caught": Caught,
         "subcaught": SubCaught,
         "deepcaught": DeepCaught,
+        "unhashable": UnhashableCaught,
         "other": Other,
         "cancelled": asyncio.CancelledError,
         "base": Base,
@@ -413,7 +423,7 @@ def execute(program, ch: Chooser) -> Result:  # noqa: C901, PLR0912, PLR0915
             if not task.done():
                 viols.append(viol("termination", mode, "call returns", "pending"))
         # ---- reference: counter loop ----
-        caught_kinds = {"caught", "subcaught", "deepcaught", "badstr"} | ({"other"} if catching == "default" else set())
+        caught_kinds = {"caught", "subcaught", "deepcaught", "badstr", "unhashable"} | ({"other"} if catching == "default" else set())
         if catching.startswith("empty"):
             caught_kinds = set()
         if delay == "fn-varargs":
